@@ -1194,8 +1194,13 @@ theorem rows_after_take {lt : α → α → Bool} (hlt : StrictOrder lt) (rows :
   rw [← hsplit] at this
   exact this
 
+/-- The selection predicate of a request: the caller's on the first one, the marker's afterwards. -/
+def afterOpt {α μ : Type} (aft0 : α → Bool) (aftM : μ → α → Bool) : Option μ → α → Bool
+  | none => aft0
+  | some k => aftM k
+
 /-- **Plain paging delivers every selected row once, in order.** -/
-theorem plain_follow {μ : Type} {lt : α → α → Bool} (hlt : StrictOrder lt) (rows : List α)
+theorem plain_follow {α μ : Type} {lt : α → α → Bool} (hlt : StrictOrder lt) (rows : List α)
     (hsorted : Sorted lt rows) (maxN : Nat) (hmax : 1 ≤ maxN) (mkOf : α → μ)
     (aft0 : α → Bool)
     (haft0 : ∀ a b, a ∈ rows → b ∈ rows → aft0 a = true → lt a b = true → aft0 b = true)
@@ -1203,16 +1208,14 @@ theorem plain_follow {μ : Type} {lt : α → α → Bool} (hlt : StrictOrder lt
     {ρ : Type} (page : Option μ → Option ρ) (items : ρ → List α) (truncated : ρ → Bool)
     (next : ρ → Option μ)
     (hpage : ∀ m, ∃ p, page m = some p ∧
-      items p = (rows.filter (match m with | none => aft0 | some k => aftM k)).take maxN ∧
-      truncated p = decide ((rows.filter (match m with | none => aft0 | some k => aftM k)).length > maxN) ∧
+      items p = (rows.filter (afterOpt aft0 aftM m)).take maxN ∧
+      truncated p = decide ((rows.filter (afterOpt aft0 aftM m)).length > maxN) ∧
       (truncated p = true → next p = (items p).getLast?.map mkOf))
     (fuel : Nat) (hfuel : rows.length < fuel) :
     (follow page truncated next fuel none).2 = .done ∧
     ((follow page truncated next fuel none).1.map items).flatten = rows.filter aft0 ∧
     ∀ p ∈ (follow page truncated next fuel none).1, (items p).length ≤ maxN := by
-  let aft : Option μ → α → Bool := fun m => match m with
-    | none => aft0
-    | some k => aftM k
+  let aft : Option μ → α → Bool := afterOpt aft0 aftM
   have := follow_exact page truncated next items (fun m => rows.filter (aft m)) id maxN
     (fun m => m = none ∨ ∃ x, x ∈ rows ∧ m = some (mkOf x)) ?_ fuel none (Or.inl rfl)
     (Nat.lt_of_le_of_lt (List.length_filter_le _ _) hfuel)
@@ -1238,8 +1241,10 @@ theorem plain_follow {μ : Type} {lt : α → α → Bool} (hlt : StrictOrder lt
       have hgt : (rows.filter (aft m)).length > maxN := by rw [htr] at h; simpa using h
       have hne : (rows.filter (aft m)).take maxN ≠ [] := by
         intro h0
-        have := congrArg List.length h0
-        simp [List.length_take] at this
+        have hl : ((rows.filter (aft m)).take maxN).length = min maxN (rows.filter (aft m)).length :=
+          List.length_take
+        rw [h0] at hl
+        simp only [List.length_nil] at hl
         omega
       obtain ⟨x, hxl⟩ : ∃ x, ((rows.filter (aft m)).take maxN).getLast? = some x := by
         cases hg : ((rows.filter (aft m)).take maxN).getLast? with
@@ -1254,5 +1259,597 @@ theorem plain_follow {μ : Type} {lt : α → α → Bool} (hlt : StrictOrder lt
       · show (rows.filter (aftM (mkOf x))).length < (rows.filter (aft m)).length
         rw [List.filter_congr (fun r hr => haftM x hxrows r hr), hafter]
         simp [List.length_drop]; omega
+
+/-! ## 12. The HTTP loop on a storage result without common prefixes -/
+
+theorem takeItems_short {α μ : Type} (mkOf : α → μ) (maxN : Nat) (tailMore : Bool) (items : List α)
+    (col : List α) (last : Option μ) (h : col.length + items.length < maxN) :
+    ∃ l, takeItems mkOf maxN tailMore col last items = .inr (col ++ items, l) := by
+  induction items generalizing col last with
+  | nil => exact ⟨last, by simp [takeItems]⟩
+  | cons o os ih =>
+    have hlen : ¬ (col ++ [o]).length ≥ maxN := by simp at h ⊢; omega
+    obtain ⟨l, hl⟩ := ih (col ++ [o]) (some (mkOf o)) (by simp at h ⊢; omega)
+    refine ⟨l, ?_⟩
+    simp only [takeItems, hlen, if_false, hl]
+    simp
+
+theorem takeItems_full {α μ : Type} (mkOf : α → μ) (maxN : Nat) (tailMore : Bool) (items : List α)
+    (col : List α) (last : Option μ) (hne : items ≠ []) (h : col.length + items.length = maxN) :
+    takeItems mkOf maxN tailMore col last items
+      = .inl (col ++ items, tailMore, items.getLast?.map mkOf) := by
+  induction items generalizing col last with
+  | nil => exact absurd rfl hne
+  | cons o os ih =>
+    cases os with
+    | nil =>
+      have hlen : (col ++ [o]).length ≥ maxN := by simp at h ⊢; omega
+      simp only [takeItems, hlen, ↓reduceIte]
+      simp
+    | cons o2 os2 =>
+      have hlen : ¬ (col ++ [o]).length ≥ maxN := by simp at h ⊢; omega
+      have := ih (col ++ [o]) (some (mkOf o)) (by simp) (by simp at h ⊢; omega)
+      simp only [takeItems, hlen, if_false] at this ⊢
+      rw [this]
+      simp [List.getLast?_cons_cons]
+
+/-- When the storage result has no common prefixes and is the first `maxN` selected rows, the
+HTTP loop returns it unchanged after one iteration, with the last row as the marker. -/
+theorem listAndFilter_plain {α μ σ : Type} [BEq μ] (list : σ → StoreRes α) (mkOf : α → μ) (cpMk : Key → μ)
+    (cur : σ → Option μ) (cont : μ → σ) (maxN : Nat) (hmax : 1 ≤ maxN) (fuel : Nat) (st : σ)
+    (sel : List α) (h1 : (list st).items = sel.take maxN) (h2 : (list st).cps = [])
+    (h3 : (list st).truncated = decide (sel.length > maxN)) :
+    ∃ p, listAndFilter list mkOf cpMk cur cont maxN (fuel + 1) [] [] st = some p ∧
+      p.items = sel.take maxN ∧ p.cps = [] ∧ p.truncated = decide (sel.length > maxN) ∧
+      (p.truncated = true → p.next = p.items.getLast?.map mkOf) := by
+  by_cases hlen : sel.length < maxN
+  · have htake : sel.take maxN = sel := List.take_of_length_le (by omega)
+    have htr : decide (sel.length > maxN) = false := by simp; omega
+    obtain ⟨l, hl⟩ := takeItems_short mkOf maxN (!(list st).cps.isEmpty || (list st).truncated)
+      (list st).items [] (cur st) (by rw [h1, htake]; simpa using hlen)
+    refine ⟨⟨sel, [], false, none⟩, ?_, by rw [htake], rfl, by rw [htr], by simp⟩
+    rw [h1, h2, h3, htake, htr] at hl
+    simp only [listAndFilter, h1, h2, h3, htake, htr, hl, takePrefixes, Bool.not_false, if_true,
+      List.nil_append]
+  · have hl : (sel.take maxN).length = maxN := by
+      rw [List.length_take]; omega
+    have hne : sel.take maxN ≠ [] := by
+      intro h0; rw [h0] at hl; simp at hl; omega
+    have hfull := takeItems_full mkOf maxN (!(list st).cps.isEmpty || (list st).truncated)
+      (list st).items [] (cur st) (by rw [h1]; exact hne) (by rw [h1]; simpa using hl)
+    refine ⟨⟨sel.take maxN, [], decide (sel.length > maxN),
+      if decide (sel.length > maxN) = true then (sel.take maxN).getLast?.map mkOf else none⟩, ?_, rfl, rfl, rfl, ?_⟩
+    · rw [h1, h2, h3] at hfull
+      simp only [listAndFilter, h1, h2, h3, hfull, List.nil_append]
+      simp
+    · intro h
+      simp only at h ⊢
+      rw [if_pos h]
+
+/-! ## 13. From the generic theorems to the five listings -/
+
+open Pithos.S3List (listing entryOf)
+
+theorem follow_all {μ ρ : Type} (page : Option μ → Option ρ) (truncated : ρ → Bool) (next : ρ → Option μ)
+    (P : ρ → Prop) (h : ∀ m p, page m = some p → P p) (fuel : Nat) (m : Option μ) :
+    ∀ p ∈ (follow page truncated next fuel m).1, P p := by
+  induction fuel generalizing m with
+  | zero => simp [follow]
+  | succ f ih =>
+    simp only [follow]
+    cases hp : page m with
+    | none => simp
+    | some p =>
+      simp only
+      cases htr : truncated p with
+      | false => simp; exact h m p hp
+      | true =>
+        cases hn : next p with
+        | none => simp; exact h m p hp
+        | some n =>
+          simp only [if_true]
+          intro q hq
+          rcases List.mem_cons.mp hq with rfl | hq
+          · exact h m _ hp
+          · exact ih (some n) q hq
+
+theorem listing_eq_listed {α : Type} (keyOf : α → Key) (pfx delim : Key) (after : α → Bool) (rows : List α) :
+    listing keyOf pfx delim after rows
+      = listed keyOf (groupOf pfx delim) ((rows.filter fun r => pfx.isPrefixOf (keyOf r)).filter after) := by
+  have he : entryOf keyOf pfx delim = entOf keyOf (groupOf pfx delim) := by funext r; rfl
+  simp only [listing, listed, List.filter_filter, he]
+  congr 2
+  apply List.filter_congr
+  intro r _
+  exact Bool.and_comm _ _
+
+theorem listed_nodelim {α : Type} (keyOf : α → Key) (pfx : Key) (l : List α) :
+    listed keyOf (groupOf pfx []) l = l.map Entry.item := by
+  induction l with
+  | nil => rfl
+  | cons a as ih =>
+    simp only [listed] at ih ⊢
+    simp [entOf, groupOf, dedupCPs, ih]
+
+theorem length_sortBy (le : α → α → Bool) (l : List α) : (sortBy le l).length = l.length :=
+  (perm_sortBy le l).length_eq
+
+theorem filter_matchPrefix {α : Type} (keyOf : α → Key) (f : PrefixFilter) (pfx : Key)
+    (hf : f = .exact ∨ LikeSafe pfx = true) (aft : α → Bool) (rows : List α) :
+    rows.filter (fun r => matchPrefix f pfx (keyOf r) && aft r)
+      = (rows.filter fun r => pfx.isPrefixOf (keyOf r)).filter aft := by
+  rw [List.filter_filter]
+  apply List.filter_congr
+  intro r _
+  rw [matchPrefix_eq_isPrefixOf f pfx hf, Bool.and_comm]
+
+/-! ### ListObjects as is, without a delimiter -/
+
+theorem listObjects_nodelim (f : PrefixFilter) (table : List Key) (pfx sa : Key) (maxKeys : Nat) :
+    listObjects f table pfx [] sa maxKeys
+      = ⟨((sortBy keyLe table).filter fun k => matchPrefix f pfx k && afterKey sa k).take maxKeys, [],
+         decide (((sortBy keyLe table).filter fun k => matchPrefix f pfx k && afterKey sa k).length > maxKeys)⟩ := by
+  simp only [listObjects, List.isEmpty_nil, if_true, List.take_take, List.length_take]
+  congr 1
+  · congr 1; omega
+  · simp only [decide_eq_decide]; omega
+
+theorem keyLe_of_keyLt {a b : Key} (h : keyLt a b = true) : keyLe a b = true := by
+  simp [keyLe, keyLt_asymm h]
+
+/-- ListObjects v1 / v2 as is, no delimiter: following the markers returns exactly the selected
+keys after the start position, in order, in pages of at most `maxKeys`, never a common prefix. -/
+theorem objects_http_nodelim (f : PrefixFilter) (table : List Key) (pfx : Key) (maxKeys : Nat)
+    (start : Option Key) (hmax : 1 ≤ maxKeys) (hf : f = .exact ∨ LikeSafe pfx = true)
+    (hnd : table.Nodup) :
+    (followObjectsHttp f table pfx [] maxKeys start).2 = .done ∧
+    ((followObjectsHttp f table pfx [] maxKeys start).1.map (·.items)).flatten
+      = ((sortBy keyLe table).filter fun k => pfx.isPrefixOf k).filter (afterKey (start.getD [])) ∧
+    ∀ p ∈ (followObjectsHttp f table pfx [] maxKeys start).1, p.items.length ≤ maxKeys ∧ p.cps = [] := by
+  let rows := (sortBy keyLe table).filter fun k => pfx.isPrefixOf k
+  have hsorted : Sorted keyLt rows := Sorted.filter (sorted_sortBy_keys table hnd) _
+  have key : ∀ st : Option Key, ∃ p, httpListObjects f table pfx [] maxKeys st = some p ∧
+      p.items = (rows.filter (afterKey (st.getD []))).take maxKeys ∧
+      p.truncated = decide ((rows.filter (afterKey (st.getD []))).length > maxKeys) ∧
+      (p.truncated = true → p.next = p.items.getLast?.map id) ∧ p.cps = [] := by
+    intro st
+    have hsel : (sortBy keyLe table).filter (fun k => matchPrefix f pfx k && afterKey (st.getD []) k)
+        = rows.filter (afterKey (st.getD [])) := filter_matchPrefix id f pfx hf _ _
+    obtain ⟨p, hp, h1, h2, h3, h4⟩ := listAndFilter_plain
+      (fun sa : Option Key => let r := listObjects f table pfx [] (sa.getD []) maxKeys
+        (⟨r.objects, r.cps, r.truncated⟩ : StoreRes Key))
+      id id id some maxKeys hmax (2 * table.length + 3) st (rows.filter (afterKey (st.getD [])))
+      (by simp only [listObjects_nodelim, hsel]) (by simp only [listObjects_nodelim])
+      (by simp only [listObjects_nodelim, hsel])
+    exact ⟨p, hp, h1, h3, h4, h2⟩
+  have hpage : ∀ m : Option Key, ∃ p,
+      httpListObjects f table pfx [] maxKeys (m.or start) = some p ∧
+      p.items = (rows.filter (afterOpt (afterKey (start.getD [])) afterKey m)).take maxKeys ∧
+      p.truncated = decide ((rows.filter (afterOpt (afterKey (start.getD [])) afterKey m)).length > maxKeys) ∧
+      (p.truncated = true → p.next = p.items.getLast?.map id) ∧ p.cps = [] := by
+    intro m
+    cases m with
+    | none => exact key start
+    | some k => exact key (some k)
+  have := plain_follow keyLt_strict rows hsorted maxKeys hmax id (afterKey (start.getD []))
+    (fun a b _ _ ha hab => keyLt_trans ha hab) afterKey (fun _ _ _ _ => rfl)
+    (fun m => httpListObjects f table pfx [] maxKeys (m.or start))
+    (·.items) (·.truncated) (·.next)
+    (fun m => by obtain ⟨p, h1, h2, h3, h4, _⟩ := hpage m; exact ⟨p, h1, h2, h3, h4⟩)
+    (clientFuel table.length)
+    (by
+      have : rows.length ≤ table.length := by
+        rw [← length_sortBy keyLe table]; exact List.length_filter_le _ _
+      simp [clientFuel]; omega)
+  refine ⟨this.1, this.2.1, fun p hp => ⟨this.2.2 p hp, ?_⟩⟩
+  exact follow_all _ _ _ (fun p => p.cps = [])
+    (fun m p hmp => by
+      obtain ⟨q, h1, _, _, _, h5⟩ := hpage m
+      have : some q = some p := h1.symm.trans hmp
+      cases this; exact h5)
+    _ _ p hp
+
+/-! ### ListObjectVersions as is; ListObjects / ListMultipartUploads with the reference paging -/
+
+abbrev sltAsc : Nat → Nat → Bool := fun a b => decide (a < b)
+abbrev sleAsc : Nat → Nat → Bool := fun a b => decide (a ≤ b)
+abbrev sltDesc : Nat → Nat → Bool := fun a b => decide (b < a)
+abbrev sleDesc : Nat → Nat → Bool := fun a b => decide (b ≤ a)
+
+theorem rowLeAsc_eq : Listing.rowLeAsc = lexLe sleAsc := rfl
+theorem rowLeDesc_eq : Listing.rowLeDesc = lexLe sleDesc := rfl
+
+theorem afterVersion_eq (x : Row) : afterVersion x.key x.sub = lexLt sltDesc x := rfl
+
+theorem afterUpload_eq (x : Row) (h : x.sub ≠ 0) : afterUpload x.key x.sub = lexLt sltAsc x := by
+  funext r
+  have : (x.sub != 0) = true := by simpa using h
+  simp [afterUpload, lexLt, this]
+
+theorem keyLe_of_lexLt {slt : Nat → Nat → Bool} {a b : Row} (h : lexLt slt a b = true) :
+    keyLe a.key b.key = true := by
+  simp only [lexLt, Bool.or_eq_true, Bool.and_eq_true, beq_iff_eq] at h
+  rcases h with h | ⟨e, _⟩
+  · exact keyLe_of_keyLt h
+  · simp [keyLe, e, keyLt_irrefl]
+
+theorem keyLt_of_lt_of_le {a b c : Key} (h1 : keyLt a b = true) (h2 : keyLe b c = true) :
+    keyLt a c = true := by
+  rcases keyLt_total b c with h | h | h
+  · exact keyLt_trans h1 h
+  · rw [← h]; exact h1
+  · simp [keyLe, h] at h2
+
+theorem afterVersion_up (mk : Key) (mv : Nat) {a b : Row} (ha : afterVersion mk mv a = true)
+    (hab : lexLt sltDesc a b = true) : afterVersion mk mv b = true := by
+  simp only [afterVersion, lexLt, Bool.or_eq_true, Bool.and_eq_true, beq_iff_eq, decide_eq_true_eq] at *
+  rcases ha with ha | ⟨ea, sa⟩
+  · left
+    rcases hab with hab | ⟨eb, _⟩
+    · exact keyLt_trans ha hab
+    · rw [eb]; exact ha
+  · rcases hab with hab | ⟨eb, sb⟩
+    · left; rw [← ea]; exact hab
+    · right; exact ⟨by rw [eb, ea], by omega⟩
+
+theorem afterUpload_up (mk : Key) (mu : Nat) {a b : Row} (ha : afterUpload mk mu a = true)
+    (hab : lexLt sltAsc a b = true) : afterUpload mk mu b = true := by
+  simp only [afterUpload, lexLt, Bool.or_eq_true, Bool.and_eq_true, beq_iff_eq, decide_eq_true_eq,
+    bne_iff_ne, ne_eq] at *
+  rcases ha with ha | ⟨⟨hm, ea⟩, sa⟩
+  · left
+    rcases hab with hab | ⟨eb, _⟩
+    · exact keyLt_trans ha hab
+    · rw [eb]; exact ha
+  · rcases hab with hab | ⟨eb, sb⟩
+    · left; rw [← ea]; exact hab
+    · right; exact ⟨⟨hm, by rw [eb, ea]⟩, by omega⟩
+
+theorem pageEq_refl (p : GroupedPage α) : PageEq p p := ⟨rfl, rfl, fun _ => rfl⟩
+
+/-- One call of `ListObjectVersions` is the paging loop over the selected rows after the marker. -/
+theorem listObjectVersions_pageEq (f : PrefixFilter) (table : List Row) (pfx delim mk : Key) (mv : Nat)
+    (maxKeys : Nat) (hmax : 1 ≤ maxKeys) (hf : f = .exact ∨ LikeSafe pfx = true) :
+    PageEq (listObjectVersions f table pfx delim mk mv maxKeys)
+      (groupedLoop (·.key) (codeCP pfx delim) (codeKeep pfx delim) maxKeys [] 0 none
+        (((sortBy Listing.rowLeDesc table).filter fun r => pfx.isPrefixOf r.key).filter (afterVersion mk mv))) := by
+  have hm0 : (maxKeys == 0) = false := by simp; omega
+  have hsel := filter_matchPrefix (fun r : Row => r.key) f pfx hf (afterVersion mk mv) (sortBy Listing.rowLeDesc table)
+  simp only [listObjectVersions, hm0, Bool.false_eq_true, if_false, hsel]
+  by_cases hde : delim.isEmpty = true
+  · simp only [hde, if_true]
+    rw [groupedLoop_take (fun r : Row => r.key) (codeCP pfx delim) (codeKeep pfx delim) maxKeys _
+      (fun r _ => by simp [codeCP, codeKeep, hde]) [] 0 none (maxKeys + 1) (by omega) (by omega)]
+    exact ⟨rfl, rfl, fun h => by simp only [h, ↓reduceIte]⟩
+  · simp only [hde, Bool.false_eq_true, if_false]
+    exact ⟨rfl, rfl, fun h => by simp only [h, ↓reduceIte]⟩
+
+/-- **ListObjectVersions (as-is paging).** In the implementation's own order of the versions of a
+key (ULID string order, `null` last) following NextKeyMarker / NextVersionIdMarker delivers exactly
+the S3 listing of the rows after the marker. -/
+theorem versions_follow (f : PrefixFilter) (table : List Row) (pfx delim km : Key) (mv : Nat)
+    (maxKeys : Nat) (hmax : 1 ≤ maxKeys) (hd : delim.length ≤ 1)
+    (hf : f = .exact ∨ LikeSafe pfx = true)
+    (hnd : (table.map fun r => (r.key, r.sub)).Nodup) :
+    (followVersions f table pfx delim km mv maxKeys).2 = .done ∧
+    ((followVersions f table pfx delim km mv maxKeys).1.map (·.entries)).flatten
+      = listing (·.key) pfx delim (afterVersion km mv) (sortBy Listing.rowLeDesc table) ∧
+    ∀ p ∈ (followVersions f table pfx delim km mv maxKeys).1, p.entries.length ≤ maxKeys := by
+  let rows := (sortBy Listing.rowLeDesc table).filter fun r => pfx.isPrefixOf r.key
+  have hsorted : Sorted (lexLt sltDesc) rows := by
+    have := sorted_sortBy_rows subOrd_desc table hnd
+    rw [← rowLeDesc_eq] at this
+    exact Sorted.filter this _
+  have hlen : rows.length < clientFuel table.length := by
+    have : rows.length ≤ table.length := by
+      rw [← length_sortBy Listing.rowLeDesc table]; exact List.length_filter_le _ _
+    simp [clientFuel]; omega
+  have := grouped_follow (fun r : Row => r.key) (lexLt_strict subOrd_desc) (fun _ _ h => keyLe_of_lexLt h)
+    rows hsorted pfx delim hd (fun r hr => (List.mem_filter.mp hr).2) maxKeys hmax
+    (afterVersion km mv) (fun a b _ _ ha hab => afterVersion_up km mv ha hab)
+    (fun m => listObjectVersions f table pfx delim (markerOf km mv m).1 (markerOf km mv m).2 maxKeys)
+    (listObjectVersions_pageEq f table pfx delim km mv maxKeys hmax hf)
+    (fun x _ => by
+      have := listObjectVersions_pageEq f table pfx delim x.key x.sub maxKeys hmax hf
+      rwa [afterVersion_eq] at this)
+    (clientFuel table.length) hlen
+  refine ⟨this.1, ?_, this.2.2⟩
+  rw [listing_eq_listed]
+  exact this.2.1
+
+/-- **ListObjects with the reference paging** (the loop of ListObjectVersions over the objects
+statement): complete, ordered, duplicate-free for every delimiter of at most one byte. -/
+theorem refObjects_follow (f : PrefixFilter) (table : List Key) (pfx delim start : Key)
+    (maxKeys : Nat) (hmax : 1 ≤ maxKeys) (hd : delim.length ≤ 1)
+    (hf : f = .exact ∨ LikeSafe pfx = true) (hnd : table.Nodup) :
+    (followRefObjects f table pfx delim maxKeys start).2 = .done ∧
+    ((followRefObjects f table pfx delim maxKeys start).1.map (·.entries)).flatten
+      = S3List.expectedObjects table pfx delim start ∧
+    ∀ p ∈ (followRefObjects f table pfx delim maxKeys start).1, p.entries.length ≤ maxKeys := by
+  let rows := (sortBy keyLe table).filter fun k => pfx.isPrefixOf k
+  have hsorted : Sorted keyLt rows := Sorted.filter (sorted_sortBy_keys table hnd) _
+  have hlen : rows.length < clientFuel table.length := by
+    have : rows.length ≤ table.length := by
+      rw [← length_sortBy keyLe table]; exact List.length_filter_le _ _
+    simp [clientFuel]; omega
+  have hpage : ∀ sa : Key, PageEq (refObjectsPage f table pfx delim maxKeys sa)
+      (groupedLoop id (codeCP pfx delim) (codeKeep pfx delim) maxKeys [] 0 none (rows.filter (afterKey sa))) := by
+    intro sa
+    have hsel := filter_matchPrefix (fun k : Key => k) f pfx hf (afterKey sa) (sortBy keyLe table)
+    simp only [refObjectsPage, hsel]
+    exact pageEq_refl _
+  have := grouped_follow (fun k : Key => k) keyLt_strict (fun _ _ h => keyLe_of_keyLt h)
+    rows hsorted pfx delim hd (fun r hr => (List.mem_filter.mp hr).2) maxKeys hmax
+    (afterKey start) (fun a b _ _ ha hab => keyLt_trans ha hab)
+    (fun m => refObjectsPage f table pfx delim maxKeys (m.getD start))
+    (hpage start) (fun x _ => hpage x)
+    (clientFuel table.length) hlen
+  refine ⟨this.1, ?_, this.2.2⟩
+  rw [S3List.expectedObjects, listing_eq_listed]
+  exact this.2.1
+
+/-- **ListMultipartUploads with the reference paging.** -/
+theorem refUploads_follow (f : PrefixFilter) (table : List Row) (pfx delim km : Key) (mu : Nat)
+    (maxUploads : Nat) (hmax : 1 ≤ maxUploads) (hd : delim.length ≤ 1)
+    (hf : f = .exact ∨ LikeSafe pfx = true)
+    (hnd : (table.map fun r => (r.key, r.sub)).Nodup) (hsub : ∀ r ∈ table, r.sub ≠ 0) :
+    (followRefUploads f table pfx delim maxUploads km mu).2 = .done ∧
+    ((followRefUploads f table pfx delim maxUploads km mu).1.map (·.entries)).flatten
+      = listing (·.key) pfx delim (afterUpload km mu) (sortBy Listing.rowLeAsc table) ∧
+    ∀ p ∈ (followRefUploads f table pfx delim maxUploads km mu).1, p.entries.length ≤ maxUploads := by
+  let rows := (sortBy Listing.rowLeAsc table).filter fun r => pfx.isPrefixOf r.key
+  have hsorted : Sorted (lexLt sltAsc) rows := by
+    have := sorted_sortBy_rows subOrd_asc table hnd
+    rw [← rowLeAsc_eq] at this
+    exact Sorted.filter this _
+  have hlen : rows.length < clientFuel table.length := by
+    have : rows.length ≤ table.length := by
+      rw [← length_sortBy Listing.rowLeAsc table]; exact List.length_filter_le _ _
+    simp [clientFuel]; omega
+  have hpage : ∀ (k : Key) (u : Nat), PageEq (refUploadsPage f table pfx delim maxUploads k u)
+      (groupedLoop (fun r : Row => r.key) (codeCP pfx delim) (codeKeep pfx delim) maxUploads [] 0 none
+        (rows.filter (afterUpload k u))) := by
+    intro k u
+    have hsel := filter_matchPrefix (fun r : Row => r.key) f pfx hf (afterUpload k u) (sortBy Listing.rowLeAsc table)
+    simp only [refUploadsPage, hsel]
+    exact pageEq_refl _
+  have := grouped_follow (fun r : Row => r.key) (lexLt_strict subOrd_asc) (fun _ _ h => keyLe_of_lexLt h)
+    rows hsorted pfx delim hd (fun r hr => (List.mem_filter.mp hr).2) maxUploads hmax
+    (afterUpload km mu) (fun a b _ _ ha hab => afterUpload_up km mu ha hab)
+    (fun m => refUploadsPage f table pfx delim maxUploads (markerOf km mu m).1 (markerOf km mu m).2)
+    (hpage km mu)
+    (fun x hx => by
+      have hxt : x ∈ table := (perm_sortBy Listing.rowLeAsc table).subset (List.mem_filter.mp hx).1
+      have := hpage x.key x.sub
+      rwa [afterUpload_eq x (hsub x hxt)] at this)
+    (clientFuel table.length) hlen
+  refine ⟨this.1, ?_, this.2.2⟩
+  rw [listing_eq_listed]
+  exact this.2.1
+
+/-! ### ListMultipartUploads as is, without a delimiter -/
+
+theorem foldl_uplStep_nodelim (pfx : Key) (maxUploads : Nat) (ents : List Row) (acc : UplResult)
+    (h : acc.uploads.length + ents.length ≤ maxUploads) :
+    (ents.foldl (uplStep pfx [] maxUploads) acc).uploads = acc.uploads ++ ents ∧
+    (ents.foldl (uplStep pfx [] maxUploads) acc).cps = acc.cps ∧
+    (ents.foldl (uplStep pfx [] maxUploads) acc).truncated = acc.truncated := by
+  induction ents generalizing acc with
+  | nil => simp
+  | cons r rs ih =>
+    have hlt : acc.uploads.length < maxUploads := by simp at h; omega
+    have hstep : uplStep pfx [] maxUploads acc r
+        = { acc with uploads := acc.uploads ++ [r], nextKey := r.key, nextSub := r.sub } := by
+      simp [uplStep, codeCP, codeKeep, hlt]
+    simp only [List.foldl_cons, hstep]
+    obtain ⟨h1, h2, h3⟩ := ih { acc with uploads := acc.uploads ++ [r], nextKey := r.key, nextSub := r.sub }
+      (by simp at h ⊢; omega)
+    exact ⟨by rw [h1]; simp, h2, h3⟩
+
+theorem listMultipartUploads_nodelim (f : PrefixFilter) (table : List Row) (pfx mk : Key) (mu : Nat)
+    (maxUploads : Nat) :
+    (listMultipartUploads f table pfx [] mk mu maxUploads).uploads
+      = ((sortBy Listing.rowLeAsc table).filter fun r => matchPrefix f pfx r.key && afterUpload mk mu r).take maxUploads ∧
+    (listMultipartUploads f table pfx [] mk mu maxUploads).cps = [] ∧
+    (listMultipartUploads f table pfx [] mk mu maxUploads).truncated
+      = decide (((sortBy Listing.rowLeAsc table).filter fun r => matchPrefix f pfx r.key && afterUpload mk mu r).length > maxUploads) := by
+  simp only [listMultipartUploads, List.isEmpty_nil, if_true, List.take_take]
+  have hmin : min maxUploads (maxUploads + 1) = maxUploads := by omega
+  rw [hmin]
+  obtain ⟨h1, h2, h3⟩ := foldl_uplStep_nodelim pfx maxUploads
+    (((sortBy Listing.rowLeAsc table).filter fun r => matchPrefix f pfx r.key && afterUpload mk mu r).take maxUploads)
+    { uploads := [], cps := [], truncated := decide ((((sortBy Listing.rowLeAsc table).filter fun r => matchPrefix f pfx r.key && afterUpload mk mu r).take (maxUploads + 1)).length > maxUploads), nextKey := [], nextSub := 0 }
+    (by simp [List.length_take]; omega)
+  refine ⟨by rw [h1]; simp, h2, ?_⟩
+  rw [h3]
+  simp only [List.length_take, decide_eq_decide]
+  omega
+
+/-- ListMultipartUploads over HTTP as is, no delimiter. -/
+theorem uploads_http_nodelim (f : PrefixFilter) (table : List Row) (pfx : Key) (maxUploads : Nat)
+    (mk : Option Key) (mu : Option Nat) (hmax : 1 ≤ maxUploads)
+    (hf : f = .exact ∨ LikeSafe pfx = true)
+    (hnd : (table.map fun r => (r.key, r.sub)).Nodup) (hsub : ∀ r ∈ table, r.sub ≠ 0) :
+    (followUploadsHttp f table pfx [] maxUploads mk mu).2 = .done ∧
+    ((followUploadsHttp f table pfx [] maxUploads mk mu).1.map (·.items)).flatten
+      = ((sortBy Listing.rowLeAsc table).filter fun r => pfx.isPrefixOf r.key).filter
+          (afterUpload (mk.getD []) (mu.getD 0)) ∧
+    ∀ p ∈ (followUploadsHttp f table pfx [] maxUploads mk mu).1, p.items.length ≤ maxUploads ∧ p.cps = [] := by
+  let rows := (sortBy Listing.rowLeAsc table).filter fun r => pfx.isPrefixOf r.key
+  have hsorted : Sorted (lexLt sltAsc) rows := by
+    have := sorted_sortBy_rows subOrd_asc table hnd
+    rw [← rowLeAsc_eq] at this
+    exact Sorted.filter this _
+  have hrows : ∀ r ∈ rows, r ∈ table := fun r hr =>
+    (perm_sortBy Listing.rowLeAsc table).subset (List.mem_filter.mp hr).1
+  have key : ∀ (k : Option Key) (u : Option Nat), ∃ p,
+      httpListUploads f table pfx [] maxUploads k u = some p ∧
+      p.items = (rows.filter (afterUpload (k.getD []) (u.getD 0))).take maxUploads ∧
+      p.truncated = decide ((rows.filter (afterUpload (k.getD []) (u.getD 0))).length > maxUploads) ∧
+      (p.truncated = true → p.next = p.items.getLast?.map fun r : Row => (r.key, r.sub)) ∧ p.cps = [] := by
+    intro k u
+    have hsel : (sortBy Listing.rowLeAsc table).filter
+        (fun r => matchPrefix f pfx r.key && afterUpload (k.getD []) (u.getD 0) r)
+        = rows.filter (afterUpload (k.getD []) (u.getD 0)) :=
+      filter_matchPrefix (fun r : Row => r.key) f pfx hf _ _
+    obtain ⟨n1, n2, n3⟩ := listMultipartUploads_nodelim f table pfx (k.getD []) (u.getD 0) maxUploads
+    rw [hsel] at n1 n3
+    obtain ⟨p, hp, h1, h2, h3, h4⟩ := listAndFilter_plain
+      (fun (st : Option Key × Option Nat) =>
+        let r := listMultipartUploads f table pfx [] (st.1.getD []) (st.2.getD 0) maxUploads
+        (⟨r.uploads, r.cps, r.truncated⟩ : StoreRes Row))
+      (fun u : Row => (u.key, u.sub)) (fun c => (c, 0))
+      (fun st => match st with
+        | (some k, some u) => some (k, u)
+        | _ => none)
+      (fun l => (some l.1, some l.2)) maxUploads hmax (2 * table.length + 3) (k, u)
+      (rows.filter (afterUpload (k.getD []) (u.getD 0))) n1 n2 n3
+    exact ⟨p, hp, h1, h3, h4, h2⟩
+  have hpage : ∀ m : Option (Key × Nat), ∃ p,
+      httpListUploads f table pfx [] maxUploads (uplState mk mu m).1 (uplState mk mu m).2 = some p ∧
+      p.items = (rows.filter (afterOpt (afterUpload (mk.getD []) (mu.getD 0))
+        (fun l : Key × Nat => afterUpload l.1 l.2) m)).take maxUploads ∧
+      p.truncated = decide ((rows.filter (afterOpt (afterUpload (mk.getD []) (mu.getD 0))
+        (fun l : Key × Nat => afterUpload l.1 l.2) m)).length > maxUploads) ∧
+      (p.truncated = true → p.next = p.items.getLast?.map fun r : Row => (r.key, r.sub)) ∧ p.cps = [] := by
+    intro m
+    cases m with
+    | none => exact key mk mu
+    | some l => exact key (some l.1) (some l.2)
+  have := plain_follow (lexLt_strict subOrd_asc) rows hsorted maxUploads hmax
+    (fun r : Row => (r.key, r.sub)) (afterUpload (mk.getD []) (mu.getD 0))
+    (fun a b _ _ ha hab => afterUpload_up _ _ ha hab)
+    (fun l : Key × Nat => afterUpload l.1 l.2)
+    (fun x hx r _ => by
+      show afterUpload x.key x.sub r = lexLt sltAsc x r
+      rw [afterUpload_eq x (hsub x (hrows x hx))])
+    (fun m => httpListUploads f table pfx [] maxUploads (uplState mk mu m).1 (uplState mk mu m).2)
+    (·.items) (·.truncated) (·.next)
+    (fun m => by obtain ⟨p, h1, h2, h3, h4, _⟩ := hpage m; exact ⟨p, h1, h2, h3, h4⟩)
+    (clientFuel table.length)
+    (by
+      have : rows.length ≤ table.length := by
+        rw [← length_sortBy Listing.rowLeAsc table]; exact List.length_filter_le _ _
+      simp [clientFuel]; omega)
+  refine ⟨this.1, this.2.1, fun p hp => ⟨this.2.2 p hp, ?_⟩⟩
+  exact follow_all _ _ _ (fun p => p.cps = [])
+    (fun m p hmp => by
+      obtain ⟨q, h1, _, _, _, h5⟩ := hpage m
+      have : some q = some p := h1.symm.trans hmp
+      cases this; exact h5)
+    _ _ p hp
+
+/-! ### ListParts as is -/
+
+abbrev natLt : Nat → Nat → Bool := fun a b => decide (a < b)
+abbrev natLe : Nat → Nat → Bool := fun a b => decide (a ≤ b)
+
+theorem natLt_strict : StrictOrder natLt :=
+  ⟨fun a => by simp [natLt], fun a b c h1 h2 => by simp [natLt] at *; omega⟩
+
+theorem sorted_sortBy_nat (parts : List Nat) (hnd : parts.Nodup) : Sorted natLt (sortBy natLe parts) :=
+  sorted_of_le_of_ne
+    (pairwise_sortBy (fun a b c h1 h2 => by simp [natLe] at *; omega) (fun a b => by simp [natLe]; omega) parts)
+    ((perm_sortBy natLe parts).nodup_iff.mpr hnd)
+    (fun a b h1 h2 => by simp [natLe, natLt] at *; omega)
+
+/-- The loop of `ListParts` over parts in ascending order: the first `maxParts` parts after the
+marker, truncated iff more follow, the last returned part as the next marker. -/
+theorem partsLoop_spec (maxParts marker : Nat) (ps : List Nat) (hs : Sorted natLt ps) (acc : List Nat)
+    (hacc : acc.length < maxParts) :
+    (partsLoop maxParts marker acc ps).parts
+      = acc ++ (ps.filter fun p => decide (marker < p)).take (maxParts - acc.length) ∧
+    (partsLoop maxParts marker acc ps).truncated
+      = decide ((ps.filter fun p => decide (marker < p)).length > maxParts - acc.length) ∧
+    ((partsLoop maxParts marker acc ps).truncated = true →
+      (partsLoop maxParts marker acc ps).next = (partsLoop maxParts marker acc ps).parts.getLast?) := by
+  induction ps generalizing acc with
+  | nil => simp [partsLoop]
+  | cons p ps' ih =>
+    have hs' : Sorted natLt ps' := hs.tail
+    by_cases hp : p ≤ marker
+    · have hf : ¬ marker < p := by omega
+      have := ih hs' acc hacc
+      simp only [partsLoop, hp, if_true, List.filter_cons, hf, decide_false, Bool.false_eq_true, if_false]
+      exact this
+    · have hf : marker < p := by omega
+      have hall : ps'.filter (fun q => decide (marker < q)) = ps' := by
+        rw [List.filter_eq_self]
+        intro q hq
+        have : natLt p q = true := List.rel_of_pairwise_cons hs hq
+        simp [natLt] at this
+        simp; omega
+      by_cases hfull : (acc ++ [p]).length ≥ maxParts
+      · have hk : maxParts - acc.length = 1 := by simp at hfull; omega
+        simp only [partsLoop, hp, if_false, hfull, if_true, List.filter_cons, hf, decide_true, hall, hk]
+        refine ⟨by simp, ?_, fun _ => by simp⟩
+        cases ps' <;> simp
+      · have hlt : (acc ++ [p]).length < maxParts := by omega
+        obtain ⟨h1, h2, h3⟩ := ih hs' (acc ++ [p]) hlt
+        simp only [partsLoop, hp, if_false, hfull, List.filter_cons, hf, decide_true, if_true]
+        have hk : maxParts - acc.length = (maxParts - (acc ++ [p]).length) + 1 := by
+          simp at hlt ⊢; omega
+        refine ⟨?_, ?_, h3⟩
+        · rw [h1, hk, List.take_succ_cons]; simp
+        · rw [h2, hk]; simp
+
+theorem listParts_spec (parts : List Nat) (marker maxParts : Nat) (hmax : 1 ≤ maxParts) (hnd : parts.Nodup) :
+    (listParts parts marker maxParts).parts
+      = ((sortBy natLe parts).filter fun p => decide (marker < p)).take maxParts ∧
+    (listParts parts marker maxParts).truncated
+      = decide (((sortBy natLe parts).filter fun p => decide (marker < p)).length > maxParts) ∧
+    ((listParts parts marker maxParts).truncated = true →
+      (listParts parts marker maxParts).next = (listParts parts marker maxParts).parts.getLast?) := by
+  have := partsLoop_spec maxParts marker (sortBy natLe parts) (sorted_sortBy_nat parts hnd) [] (by simp; omega)
+  simpa [listParts] using this
+
+/-- ListParts at the storage API, following NextPartNumberMarker. -/
+theorem parts_storage_follow (parts : List Nat) (maxParts marker : Nat) (hmax : 1 ≤ maxParts)
+    (hnd : parts.Nodup) :
+    (followPartsStorage parts maxParts marker).2 = .done ∧
+    ((followPartsStorage parts maxParts marker).1.map (·.parts)).flatten
+      = S3List.expectedParts parts marker ∧
+    ∀ p ∈ (followPartsStorage parts maxParts marker).1, p.parts.length ≤ maxParts := by
+  have := plain_follow natLt_strict (sortBy natLe parts) (sorted_sortBy_nat parts hnd) maxParts hmax id
+    (fun p => decide (marker < p)) (fun a b _ _ ha hab => by simp [natLt] at *; omega)
+    (fun k p => decide (k < p)) (fun _ _ _ _ => rfl)
+    (fun m => some (listParts parts (m.getD marker) maxParts)) (·.parts) (·.truncated) (·.next)
+    (fun m => by
+      obtain ⟨h1, h2, h3⟩ := listParts_spec parts (m.getD marker) maxParts hmax hnd
+      refine ⟨_, rfl, ?_, ?_, fun h => by rw [h3 h]; simp⟩
+      · cases m <;> exact h1
+      · cases m <;> exact h2)
+    (clientFuel parts.length) (by rw [length_sortBy]; simp [clientFuel])
+  exact this
+
+/-- ListParts over HTTP (`listAndFilterParts`), following NextPartNumberMarker. -/
+theorem parts_http_follow (parts : List Nat) (maxParts : Nat) (marker : Option Nat) (hmax : 1 ≤ maxParts)
+    (hnd : parts.Nodup) :
+    (followPartsHttp parts maxParts marker).2 = .done ∧
+    ((followPartsHttp parts maxParts marker).1.map (·.items)).flatten
+      = S3List.expectedParts parts (marker.getD 0) ∧
+    ∀ p ∈ (followPartsHttp parts maxParts marker).1, p.items.length ≤ maxParts := by
+  have key : ∀ st : Option Nat, ∃ p, httpListParts parts maxParts st = some p ∧
+      p.items = ((sortBy natLe parts).filter fun q => decide (st.getD 0 < q)).take maxParts ∧
+      p.truncated = decide (((sortBy natLe parts).filter fun q => decide (st.getD 0 < q)).length > maxParts) ∧
+      (p.truncated = true → p.next = p.items.getLast?.map id) := by
+    intro st
+    obtain ⟨n1, n2, _⟩ := listParts_spec parts (st.getD 0) maxParts hmax hnd
+    obtain ⟨p, hp, h1, _, h3, h4⟩ := listAndFilter_plain
+      (fun m : Option Nat => let r := listParts parts (m.getD 0) maxParts
+        (⟨r.parts, [], r.truncated⟩ : StoreRes Nat))
+      id (fun _ => 0) id some maxParts hmax (2 * parts.length + 3) st
+      ((sortBy natLe parts).filter fun q => decide (st.getD 0 < q)) n1 rfl n2
+    exact ⟨p, hp, h1, h3, h4⟩
+  have := plain_follow natLt_strict (sortBy natLe parts) (sorted_sortBy_nat parts hnd) maxParts hmax id
+    (fun p => decide (marker.getD 0 < p)) (fun a b _ _ ha hab => by simp [natLt] at *; omega)
+    (fun k p => decide (k < p)) (fun _ _ _ _ => rfl)
+    (fun m => httpListParts parts maxParts (m.or marker)) (·.items) (·.truncated) (·.next)
+    (fun m => by
+      cases m with
+      | none => exact key marker
+      | some k => exact key (some k))
+    (clientFuel parts.length) (by rw [length_sortBy]; simp [clientFuel])
+  exact this
 
 end Pithos.Listing
